@@ -37,7 +37,7 @@ def plan(tier, seed):
 
 
 def mandatory_bins(tier):
-    return ["step_pairs", "len0", "len1", "len2", "default_start", "split", "type_bytes", "type_bytearray", "type_memoryview", "type_list", "catalogue_check_value"]
+    return ["step_pairs", "len0", "len1", "len2", "default_start", "split", "type_bytes", "type_bytearray", "type_memoryview", "type_list", "type_iterator", "type_generator", "catalogue_check_value"]
 
 
 def finish(agg, tier):
@@ -115,6 +115,20 @@ def run_shard(spec, ctx):
             if i < 2:
                 ctx.sample({"kind": "rand", "data": data[:32], "len": ln, "start": start, "cut": cut, "crc": got})
             rp = {"kind": "string", "data": data.hex(), "start": start, "cut": cut, "type": tn}
+            if i % 8 == 5:
+                # one-shot iterables (iterator, generator, chain): the correct value or an exception, never a silently wrong value
+                import itertools
+
+                for itname, mkit in (("iterator", lambda: iter(data)), ("generator", lambda: (b for b in data)), ("chain", lambda: itertools.chain(data[:cut], data[cut:]))):
+                    ctx.bin("type_" + itname)
+                    ctx.mon("crc8404B")
+                    try:
+                        g = f(mkit(), start)
+                    except (TypeError, ValueError):
+                        ctx.note("one_shot_iterable_refused")
+                        continue
+                    if g != exp:
+                        ctx.violation("wrong_value_for_one_shot_iterable", {"type": itname, "len": ln, "start": start, "got": g, "expected": exp}, rp)
             if got != exp:
                 ctx.violation("string_mismatch", {"len": ln, "start": start, "got": got, "expected": exp, "type": tn}, rp)
             if not (0 <= got < 65536) or not (0 <= mid < 65536):
